@@ -36,7 +36,7 @@ def run(tier):
     kc.model_check(rep, wd)
     scn = kc.exported(wd, False)
     sp = vlib.write_ndjson(os.path.join(wd, "scn.ndjson"), scn)
-    counts = (1, 2, 3, 4, 5, 7, 16) if thorough else (1, 3, 4)
+    counts = (1, 2, 3, 4, 5, 7, 8, 16) if thorough else (1, 3, 4, 8)
     paths = {}
     for n in counts:
         tr = os.path.join(wd, f"replay{n}.ndjson")
@@ -72,6 +72,13 @@ def run(tier):
         os.remove(tx)
         vlib.vh(["shard", "scan", "--shards", n, "--out", tr])
         vlib.validate_runs(rep, "KsTrace", "KsTrace", tr, wd, f"scan_{n}shards", dev_cfgs=DEV, describe=kc.DESCRIBE, strip=("s", "keys", "returned"))
+    # the property read literally: the same sequence (modelled commands and commands outside the model: server settings, stubs,
+    # scripts, malformed argument lists) on a 1-shard server and on an N-shard twin, every reply and the final keyspaces compared
+    for n in ((2, 3, 4, 7, 16) if thorough else (4, 7)):
+        tr = os.path.join(wd, f"twin{n}.ndjson")
+        vlib.vh(["shard", "twin", "--shards", n, "--seed", vlib.seed() * 10 + n + 3, "--n", 1500 if thorough else 150, "--len", 30, "--out", tr])
+        vlib.validate_runs(rep, "KsTrace", "KsTrace", tr, wd, f"twin_{n}shards", dev_cfgs=DEV, describe=kc.DESCRIBE, strip=("s1", "sn"))
+        os.remove(tr)
     # far more shards than bits in a machine word, few keys, commands naming two or three keys at once
     for n in ((65, 128, 200, 256) if thorough else (128, 200)):
         tr = os.path.join(wd, f"wide{n}.ndjson")
